@@ -14,6 +14,8 @@ import SA.Model.DnsServerSites
 import SA.Proofs.DnsStray
 import SA.Props.C13
 import SA.Gen.PkgVars
+import SA.Gen.C12Nul
+import SA.Gen.C11Init
 
 namespace SA.Props.C12
 open SA.Go SA.Go.Res SA.DnsServer
@@ -399,3 +401,16 @@ theorem C12_no_hidden_process_state :
 end SA.PkgState
 
 #print axioms SA.PkgState.C12_no_hidden_process_state
+
+namespace SA.PkgState
+/-- **client_decoders_reject_nul_and_have_a_codec**: two facts about the client that its robustness against answers rests
+    on (regenerated).  (1) Every response decoder that reads an error text treats a NUL inside it as a malformed answer
+    — without that guard the read's nil error was passed on, the answer counted as decoded with no error recorded, and
+    the version exchange then asserted an `e` answer to be a version response.  (2) A new client has a downstream codec
+    from the start (the server's default) — without one, an answer of a type that carries encoded data made the client
+    call a nil codec.  Both were client crashes on the unrepaired tree (`dnsfuzz clihs … v 1 656161`, `… v 1 63616263`). -/
+theorem C12_client_decoders_reject_nul_and_have_a_codec :
+    Gen.errTextNulRejected = true ∧ Gen.errTextReads = 6 ∧ Gen.c11ClientInitialDown = "Base32" := by decide
+end SA.PkgState
+
+#print axioms SA.PkgState.C12_client_decoders_reject_nul_and_have_a_codec
